@@ -68,7 +68,7 @@ CHECKS = {
         category="model_checking",
         engine="E1/E2 Layer B cluster (choice-point exploration by re-execution)",
         technique="stateless exploration of a real in-process cluster: exhaustive operation histories x deviation-bounded enumeration of every environment choice point (per-RPC deliver/lose request/lose reply incl. the requests of mid-history repair exchanges, extra flush/repair/restart events and one 55-minute jump (the history stays within one forgiveness period), a node unreachable until a chosen moment, late flushes, closing order) by re-execution from choice prefixes; plus all await-point interleavings (preemption-bounded) of two concurrent client operations",
-        text="Real nodes (Clock, KeyspaceGroup + actors, in-process RPC services, selector, distributor behind a flush gate, poller one cycle at a time, public ReplicatedStoreHandle) are driven through every history of put/del/put_many/del_many (levels None/All, One in thorough) on 2 keys: quick = N=2 with 2 ops <=2 deviations and 3 ops <=1, N=3 2 ops <=1, MemStore variant, lagging-node block, clock-skew block, faulty-repair blocks (1 op <=4, 2 ops <=2 deviations), an anti-entropy-only block (every direct message and batch lost, 3 ops <=1 deviation), a block with put_many carrying one id twice, 55-minute-jump block, two scripted 'sharp driver' skeletons (a node misses the first operation, 55 minutes pass, it receives the second one, restarts or not) with <=1 deviation on top, concurrency block (two operations, or a repair cycle racing with an operation, fine-grained) with <=3 preemptions (~1 M executions, 13 s); thorough = N=2 up to 4 ops / 3 deviations, N=3 up to 3 ops, every special block deeper, <=4 preemptions. After the closing exchanges (every ordered pair, order itself a choice) and again after late batch flushes all nodes must return the same live documents, equal per id to the locally issued write with the greatest stamp (from the issuers' storage logs); set/store agreement (C02) is a side condition on every node. The reference (greatest stamp per id among the operations issued) is read from the storage logs; a stamp counts as issued at a node only if it reached that node's storage first (global sequence numbers over all stores), so a stamp altered on the wire is not mistaken for an issued operation. The concurrency block also races a repair exchange with a directly replicated write at the node being read while every distributor batch is lost (the direct message can land between the repairing node's Diff and the bulk request applying it).",
+        text="Real nodes (Clock, KeyspaceGroup + actors, in-process RPC services, selector, distributor behind a flush gate, poller one cycle at a time, public ReplicatedStoreHandle) are driven through every history of put/del/put_many/del_many (levels None/All, One in thorough) on 2 keys: quick = N=2 with 2 ops <=2 deviations and 3 ops <=1, N=3 2 ops <=1, MemStore variant, lagging-node block, clock-skew block, faulty-repair blocks (1 op <=4, 2 ops <=2 deviations), an anti-entropy-only block (every direct message and batch lost, 3 ops <=1 deviation), a block with put_many carrying one id twice, 55-minute-jump block, two scripted 'sharp driver' skeletons (a node misses the first operation, 55 minutes pass, it receives the second one, restarts or not) with <=1 deviation on top, concurrency block (two operations, or a repair cycle racing with an operation, fine-grained) with <=3 preemptions (~1 M executions, 13 s); thorough = N=2 up to 4 ops / 3 deviations, N=3 up to 3 ops, every special block deeper, <=4 preemptions. After the closing exchanges (every ordered pair, order itself a choice) and again after late batch flushes all nodes must return the same live documents, equal per id to the locally issued write with the greatest stamp (from the issuers' storage logs); set/store agreement (C02) is a side condition on every node. The reference (greatest stamp per id among the operations issued) is read from the storage logs; a stamp counts as issued at a node only if it reached that node's storage first (global sequence numbers over all stores), so a stamp altered on the wire is not mistaken for an issued operation. The concurrency block also races a repair exchange with a directly replicated write at the node being read while every distributor batch is lost (the direct message can land between the repairing node's Diff and the bulk request applying it). Further blocks take three single operations on one id with two deviations, and, with every batch lost, add late duplicates of earlier direct messages as explicit events (delay and duplication), also after the last operation.",
         note="Bounded: 2-3 nodes, 2 keys, <=4 operations, <=3 deviations; fixed membership; repair requests are faulted in dedicated N=2 blocks only; the closing exchanges always complete. In-process transport instead of HTTP/2.",
         design="DESIGN.md section 3, C01",
     ),
